@@ -1,45 +1,51 @@
 (* C19 -- what the property demands of a module tree, stated without the loader's state:
    the import graph under the documented resolution (relative to the importing file's own
-   directory), reachability, post-order, and the names each import form grants.
-   Also the decidable guards under which the loader (Model/Modules.v) meets it. Definitions only. *)
+   directory, then to the entry file's directory), reachability, post-order, and the names each
+   import form grants.  Definitions only. *)
 From Coq Require Import NArith Bool List.
 From Aelys Require Import Model.Modules.
 Import ListNotations.
 Local Open Scope N_scope.
 
-(* the file that import i, written in file f, means *)
-Definition target (fs : fsys) (f : fpath) (i : import) : option fpath :=
+(* what import i, written in file f, means: the file, and the import form it stands for
+   (`needs a.b.s` with no module a.b.s but a module a.b is the selective import of s from a.b) *)
+Definition meaning (fs : fsys) (root : list ident) (f : fpath) (i : import) : option (fpath * form) :=
   if is_std (i_path i) then None
-  else match resolve_fb fs (dir_of f) (i_path i) with
-       | Some (g, _, _) => Some g
+  else match resolve_fb fs root (dir_of f) (i_path i) with
+       | Some (g, _, None) => Some (g, i_form i)
+       | Some (g, _, Some s) => Some (g, FSymbols [s])
        | None => None
        end.
 
-Definition edge (fs : fsys) (f g : fpath) : Prop :=
-  exists m i, find_file fs f = Some m /\ In i (m_imports m) /\ target fs f i = Some g.
+Definition target (fs : fsys) (root : list ident) (f : fpath) (i : import) : option fpath :=
+  match meaning fs root f i with Some (g, _) => Some g | None => None end.
 
-Inductive reachable (fs : fsys) (e : fpath) : fpath -> Prop :=
-| r_refl : reachable fs e e
-| r_step : forall g h, reachable fs e g -> edge fs g h -> reachable fs e h.
+(* the import graph of a program whose entry file is E *)
+Definition edge (fs : fsys) (E : fpath) (f g : fpath) : Prop :=
+  exists m i, find_file fs f = Some m /\ In i (m_imports m) /\ target fs (dir_of E) f i = Some g.
+
+Inductive reachable (fs : fsys) (E : fpath) : fpath -> Prop :=
+| r_refl : reachable fs E E
+| r_step : forall g h, reachable fs E g -> edge fs E g h -> reachable fs E h.
 
 (* one or more import edges *)
-Inductive path_plus (fs : fsys) : fpath -> fpath -> Prop :=
-| pp_one : forall f g, edge fs f g -> path_plus fs f g
-| pp_step : forall f g h, path_plus fs f g -> edge fs g h -> path_plus fs f h.
+Inductive path_plus (fs : fsys) (E : fpath) : fpath -> fpath -> Prop :=
+| pp_one : forall f g, edge fs E f g -> path_plus fs E f g
+| pp_step : forall f g h, path_plus fs E f g -> edge fs E g h -> path_plus fs E f h.
 
 (* every file's dependencies occur earlier in the trace *)
-Definition postorder (fs : fsys) (tr : list fpath) : Prop :=
-  forall l1 g l2, tr = l1 ++ g :: l2 -> forall h, edge fs g h -> In h l1.
+Definition postorder (fs : fsys) (E : fpath) (tr : list fpath) : Prop :=
+  forall l1 g l2, tr = l1 ++ g :: l2 -> forall h, edge fs E g h -> In h l1.
 
 (* ---- names an import grants (docs/language-spec.md, Modules) *)
-Definition granted_bare (fs : fsys) (f : fpath) (i : import) : list ident :=
-  match target fs f i with
+Definition granted_bare (fs : fsys) (root : list ident) (f : fpath) (i : import) : list ident :=
+  match meaning fs root f i with
   | None => []
-  | Some g =>
+  | Some (g, fm) =>
       match find_file fs g with
       | None => []
       | Some mg =>
-          match i_form i with
+          match fm with
           | FModule | FWildcard => pub_names mg
           | FSymbols l => l
           | FAlias _ => []
@@ -47,93 +53,38 @@ Definition granted_bare (fs : fsys) (f : fpath) (i : import) : list ident :=
       end
   end.
 
-(* what compile_module makes of it for an import written inside a non-entry module: of the
-   selected symbols only the first (known finding KF-C19-6); equal to granted_bare when every
-   `needs .. from ..` selects one symbol.  (The parser never produces an empty symbol list.) *)
-Definition granted_bare_nested (fs : fsys) (f : fpath) (i : import) : list ident :=
-  match target fs f i with
-  | None => []
-  | Some g =>
-      match find_file fs g with
-      | None => []
-      | Some mg =>
-          match i_form i with
-          | FModule | FWildcard => pub_names mg
-          | FSymbols l => [hd 0 l]
-          | FAlias _ => []
-          end
-      end
+(* the qualifier under which the import's module can be named.  (The loader also treats the last
+   segment of a wildcard import as a qualifier; nothing is ever bound under it by that import.) *)
+Definition granted_qualifier (fs : fsys) (root : list ident) (f : fpath) (i : import) : option ident :=
+  if is_std (i_path i) then
+    match i_form i with FModule | FWildcard => Some (last_seg (i_path i)) | FAlias a => Some a | FSymbols _ => None end
+  else match meaning fs root f i with
+  | Some (_, FModule) | Some (_, FWildcard) => Some (last_seg (i_path i))
+  | Some (_, FAlias a) => Some a
+  | _ => None
   end.
 
-Definition single_symbols (m : module) : Prop :=
-  forall j l, In j (m_imports m) -> i_form j = FSymbols l -> exists x, l = [x].
 Definition nonempty_symbols (m : module) : Prop :=
   forall j l, In j (m_imports m) -> i_form j = FSymbols l -> l <> [].
 Definition no_std_imports (m : module) : Prop :=
   forall j, In j (m_imports m) -> is_std (i_path j) = false.
 
-(* the qualifier under which the import's module can be named.  (The loader also treats the last
-   segment of a wildcard import as a qualifier; nothing is ever bound under it by that import.) *)
-Definition granted_qualifier (i : import) : option ident :=
-  match i_form i with
-  | FModule | FWildcard => Some (last_seg (i_path i))
-  | FAlias a => Some a
-  | FSymbols _ => None
-  end.
-
-(* ---- decidable guards *)
-Definition imports_of (fs : fsys) : list (fpath * import) :=
-  flat_map (fun fm => map (fun i => (fst fm, i))
-                          (filter (fun i => negb (is_std (i_path i))) (m_imports (snd fm)))) fs.
-
-Definition res_of (fs : fsys) (fi : fpath * import) :=
-  resolve_fb fs (dir_of (fst fi)) (i_path (snd fi)).
-
-(* no import is resolved through the "parent module + symbol" fallback *)
-Definition plain_b (fs : fsys) (fi : fpath * import) : bool :=
-  match res_of fs fi with Some (_, _, Some _) => false | _ => true end.
-
-(* two imports have the same dotted path exactly when they mean the same file *)
-Definition pair_ok (fs : fsys) (a b : fpath * import) : bool :=
-  let same_key := key_eqb (i_path (snd a)) (i_path (snd b)) in
-  match res_of fs a, res_of fs b with
-  | Some (g, _, _), Some (h, _, _) => Bool.eqb same_key (key_eqb g h)
-  | None, None => true
-  | _, _ => negb same_key
-  end.
-
-Definition keys_ok (fs : fsys) : bool :=
-  forallb (plain_b fs) (imports_of fs)
-  && forallb (fun a => forallb (pair_ok fs a) (imports_of fs)) (imports_of fs).
-
-(* all files in one directory, single-segment imports (or std imports): the flat case of the property *)
-Definition flat (fs : fsys) : bool :=
-  forallb (fun fm => match fst fm with [_] => true | _ => false end
-                     && forallb (fun i => is_std (i_path i) || match i_path i with [_] => true | _ => false end) (m_imports (snd fm))) fs.
-
-(* a top-level name is defined by at most one file *)
-Fixpoint count_id (n : ident) (l : list ident) : nat :=
-  match l with [] => O | x :: r => (if n =? x then 1 else 0)%nat + count_id n r end.
-Definition all_def_names (fs : fsys) : list ident := flat_map (fun fm => map d_name (m_defs (snd fm))) fs.
-Definition unique_defs (fs : fsys) : bool :=
-  forallb (fun n => Nat.eqb (count_id n (all_def_names fs)) 1) (all_def_names fs).
-
 (* every import written in a reachable file resolves, and selects only pub symbols *)
 Definition clean (fs : fsys) (E : fpath) : Prop :=
   forall f m i, reachable fs E f -> find_file fs f = Some m -> In i (m_imports m) ->
     is_std (i_path i) = false ->
-    i_path i <> [] /\ exists g mg, target fs f i = Some g /\ find_file fs g = Some mg /\
-      (forall l s, i_form i = FSymbols l -> In s l -> In s (pub_names mg)).
+    i_path i <> [] /\ exists g fm mg, meaning fs (dir_of E) f i = Some (g, fm) /\ find_file fs g = Some mg /\
+      (forall l s, fm = FSymbols l -> In s l -> In s (pub_names mg)).
 
 (* decidable and sufficient: the same for every file of the tree, reachable or not *)
-Definition clean_b (fs : fsys) : bool :=
+Definition clean_b (fs : fsys) (root : list ident) : bool :=
   forallb (fun fm => forallb (fun i =>
      is_std (i_path i) ||
      (match i_path i with [] => false | _ :: _ => true end &&
-      match target fs (fst fm) i with
-      | Some g =>
+      match meaning fs root (fst fm) i with
+      | Some (g, f) =>
           match find_file fs g with
-          | Some mg => match i_form i with
+          | Some mg => match f with
                        | FSymbols l => forallb (fun s => mem_id s (pub_names mg)) l
                        | _ => true
                        end
@@ -142,22 +93,30 @@ Definition clean_b (fs : fsys) : bool :=
       | None => false
       end)) (m_imports (snd fm))) fs.
 
-(* ---- compile-time name sets of a top level, against the grants above *)
-(* a non-entry module (its event has the non-empty key it was registered under) *)
-Definition ev_ok_mod (fs : fsys) (ev : event) : Prop :=
-  ev_key ev <> [] /\
-  forall m, find_file fs (ev_file ev) = Some m -> no_std_imports m ->
-    (forall q, In q (ev_aliases ev) <-> exists j, In j (m_imports m) /\ granted_qualifier j = Some q) /\
+(* a top-level name is defined by at most one file *)
+Fixpoint count_id (n : ident) (l : list ident) : nat :=
+  match l with [] => O | x :: r => (if n =? x then 1 else 0)%nat + count_id n r end.
+Definition all_def_names (fs : fsys) : list ident := flat_map (fun fm => map d_name (m_defs (snd fm))) fs.
+Definition unique_defs (fs : fsys) : bool :=
+  forallb (fun n => Nat.eqb (count_id n (all_def_names fs)) 1) (all_def_names fs).
+
+(* every import written in file f means a file of the tree and selects only pub symbols of it *)
+Definition selected_are_pub (fs : fsys) (E : fpath) (f : fpath) : Prop :=
+  forall m j, find_file fs f = Some m -> In j (m_imports m) -> is_std (i_path j) = false ->
+    exists g fm mg, meaning fs (dir_of E) f j = Some (g, fm) /\ find_file fs g = Some mg /\
+      (forall l s, fm = FSymbols l -> In s l -> In s (pub_names mg)).
+
+(* ---- compile-time name sets of a top level (module or entry), against the grants above *)
+Definition names_ok (fs : fsys) (E : fpath) (ev : event) : Prop :=
+  forall m, find_file fs (ev_file ev) = Some m -> no_std_imports m -> nonempty_symbols m ->
+    (forall q, In q (ev_aliases ev) <->
+       exists j, In j (m_imports m) /\ granted_qualifier fs (dir_of E) (ev_file ev) j = Some q) /\
     (forall n, In n (ev_known ev) <->
-       In n (map d_name (m_defs m)) \/ exists j, In j (m_imports m) /\ In n (granted_bare_nested fs (ev_file ev) j)).
+       In n (map d_name (m_defs m)) \/
+       exists j, In j (m_imports m) /\ In n (granted_bare fs (dir_of E) (ev_file ev) j)).
 
-(* the entry file *)
-Definition entry_names_ok (fs : fsys) (E : fpath) (me : module) (ev : event) : Prop :=
-  (forall q, In q (ev_aliases ev) <-> exists j, In j (m_imports me) /\ granted_qualifier j = Some q) /\
-  (forall n, In n (ev_known ev) <->
-     In n (map d_name (m_defs me)) \/ exists j, In j (m_imports me) /\ In n (granted_bare fs E j)).
-
-(* ---- concrete trees used by the refutation theorems and examples of Props/C19.v *)
+(* ---- concrete trees used by the refutation theorems, the regression examples (trees that refuted
+        the property before the repairs) and the non-vacuity example of Props/C19.v *)
 Definition imp (p : key) (f : form) : import := {| i_path := p; i_form := f |}.
 Definition D (n : ident) (b : bool) : def := {| d_name := n; d_pub := b |}.
 Definition M (is : list import) (ds : list def) : module := {| m_imports := is; m_defs := ds |}.
